@@ -99,7 +99,7 @@ func init() {
 			add(searchText(f))
 		}
 		for _, f := range f32Samples {
-			add(fmt.Sprintf("%v", interface{}(f)))
+			add(searchText32(f))
 		}
 		out.WriteString("/-- corpus of family searchuni: texts (hex) the table below has a column for -/\n")
 		out.WriteString("def reTexts : List String := [\n")
@@ -166,15 +166,36 @@ func init() {
 var f64Samples = []float64{0, 1, -1, 1.5, -2.25, 0.1, 100, 12345.678, 1e21, 1e-7, 3.14159, 42, 1e6, 123456789, math.Inf(1), math.Inf(-1), math.NaN(), math.MaxFloat64, math.SmallestNonzeroFloat64, -0.5,
 	999999.5, 1234567.89, -2500000.25, 1e14, 999999999999999, 1e15, 1.5e15, -1e6}
 
-// searchText is the text a float64 is SEARCHED as (Spec: the text PostgreSQL prints for a numeric / float8 / JSON number):
-// positional shortest decimal for 1e6 <= |f| < 1e15, fmt's %v otherwise (fix search/05; before it: %v throughout, so a
-// numeric 1000000 was searched as "1e+06")
+// searchText / searchText32 are the harness's own transcription of the SPECIFIED search text of a float cell
+// (Spec/SearchFloat.lean: f64Text, f32Text), used where the Lean side cannot evaluate (family searchre) and for the
+// regex corpus of family searchuni.  They are written with strconv; that strconv's shortest digits are the ones the Lean
+// definition computes from the bit pattern is what family floattext checks (against the real code, which must show the
+// Lean text) — nothing in a verdict rests on these two functions alone.
 func searchText(f float64) string {
-	if a := math.Abs(f); a >= 1e6 && a < 1e15 {
-		return strconv.FormatFloat(f, 'f', -1, 64)
+	switch {
+	case math.IsNaN(f):
+		return "NaN"
+	case math.IsInf(f, 1):
+		return "Infinity"
+	case math.IsInf(f, -1):
+		return "-Infinity"
 	}
-	return fmt.Sprintf("%v", interface{}(f))
+	return strconv.FormatFloat(f, 'f', -1, 64)
 }
+
+func searchText32(f float32) string {
+	g := float64(f)
+	switch {
+	case math.IsNaN(g):
+		return "NaN"
+	case math.IsInf(g, 1):
+		return "Infinity"
+	case math.IsInf(g, -1):
+		return "-Infinity"
+	}
+	return strconv.FormatFloat(g, 'g', -1, 32)
+}
+
 var f32Samples = []float32{0, 1, -1, 1.5, -2.25, 0.1, 100, 12345.678, 1e21, 3.14159, 42, 16777216, float32(math.Inf(1)), float32(math.NaN())}
 
 func init() {
@@ -189,16 +210,6 @@ func init() {
 			fmt.Fprintf(out, "  (0x%016x, %s)%s\n", math.Float64bits(f), strconv.Quote(fmt.Sprintf("%v", interface{}(f))), sep)
 		}
 		out.WriteString("]\n")
-		out.WriteString("/-- the text a float64 is searched as where it differs from `%v`: positional decimal for 1e6 <= |x| < 1e15 (bits, text) -/\n")
-		out.WriteString("def f64SearchText : List (Nat × String) := [\n")
-		var rows []string
-		for _, f := range f64Samples {
-			if searchText(f) != fmt.Sprintf("%v", interface{}(f)) {
-				rows = append(rows, fmt.Sprintf("  (0x%016x, %s)", math.Float64bits(f), strconv.Quote(searchText(f))))
-			}
-		}
-		out.WriteString(joinS(rows, ",\n"))
-		out.WriteString("\n]\n")
 		out.WriteString("/-- `fmt.Sprintf(\"%v\", x)` for sample float32 values (bits, text) -/\n")
 		out.WriteString("def f32Text : List (Nat × String) := [\n")
 		for i, f := range f32Samples {
